@@ -1,3 +1,4 @@
+import RsMatterVerif.Generated.Consts
 import RsMatterVerif.Model.Codec.Buf
 /-!
 # Model of `transport/network/btp/session/packet.rs`: `BtpHdr`, `HandshakeReq`, `HandshakeResp`
@@ -6,13 +7,13 @@ The decoders read from a byte *iterator* (`msg.next().ok_or(ErrorCode::Invalid)`
 namespace Codec.BtpHdr
 open Codec
 
-def HANDSHAKE : Nat := 0x40
-def MANAGEMENT : Nat := 0x20
-def ACK : Nat := 0x08
-def ENDING : Nat := 0x04
-def CONTINUE : Nat := 0x02
-def BEGINNING : Nat := 0x01
-def FLAGS_ALL : Nat := 0x6F
+def HANDSHAKE : Nat := Consts.c17BtpHandshake
+def MANAGEMENT : Nat := Consts.c17BtpManagement
+def ACK : Nat := Consts.c17BtpAck
+def ENDING : Nat := Consts.c17BtpEnding
+def CONTINUE : Nat := Consts.c17BtpContinue
+def BEGINNING : Nat := Consts.c17BtpBeginning
+def FLAGS_ALL : Nat := HANDSHAKE ||| MANAGEMENT ||| ACK ||| ENDING ||| CONTINUE ||| BEGINNING
 
 def contains (flags m : Nat) : Bool := flags &&& m == m
 
